@@ -200,9 +200,13 @@ def _group_recompute(g, thr, nested):
     """BycycleGroup.recompute_edges(r): every model's table becomes the functional edge recomputation of the table it held, thresholds lowered by r.
     Returns (fingerprints after the call, fingerprints of the functional recomputation), shaped like g.models."""
     from bycycle.burst.utils import recompute_edges
+    rows = g.models if nested else [g.models]
+    if len(rows[0]) % 2 == 1:
+        # a threshold edit by ASSIGNMENT on the fitted group (another dictionary, lax thresholds): the recomputation uses the thresholds the group holds now
+        thr = {k: (min(v, 0.125) if k.endswith('_threshold') else 1) for k, v in thr.items()}
+        g.thresholds = dict(thr)
     red = 0.1 if min(v for k, v in thr.items() if k.endswith('_threshold')) >= 0.1 else None
     low = {k: (v - (red or 0) if k.endswith('_threshold') else v) for k, v in thr.items()}
-    rows = g.models if nested else [g.models]
     expected = [[table_fp(recompute_edges(m.df_features, dict(low))) for m in row] for row in rows]
     g.recompute_edges(red)
     got = [[table_fp(m.df_features) for m in row] for row in (g.models if nested else [g.models])]
